@@ -47,12 +47,20 @@ func c08Scenarios(tier string) []*Scenario {
 					for _, c := range [][]string{{"S0", "C", "R*", "R"}, {"S0", "C", "H", "R*", "T"}} {
 						add(tr, "", RPC{Kind: "cs", Client: c, Handler: h})
 					}
-					if tier == "thorough" && r >= 2 {
+					// the call's context ending at any instant must not turn a miscounted or failed
+					// call into a success (frames are dropped once the context is done)
+					if tier == "thorough" || (!md && r <= 2) {
 						add(tr, "cancel", RPC{Kind: "cs", Client: []string{"S0", "C", "R*", "R"}, Handler: h})
 					}
 				}
 			}
 		}
+		// one response, then a failure whose status object says OK: still a failed call
+		for _, c := range [][]string{{"S0", "C", "R*", "R"}, {"S0", "C", "H", "R*", "T"}} {
+			add(tr, "", RPC{Kind: "cs", Client: c, Handler: []string{"r*", "s0", "ret:okerr"}})
+			add(tr, "", RPC{Kind: "cs", Client: c, Handler: []string{"r*", "h:a", "s0", "t:b", "ret:okerr"}})
+		}
+		add(tr, "", RPC{Kind: "unary", Client: []string{"I"}, Handler: []string{"dec", "ret:okerr"}})
 		// responses sent before the client has finished sending (in-process: full duplex)
 		if tr == "inproc" {
 			add(tr, "", RPC{Kind: "cs", Client: []string{"S0", "S1", "C", "R*", "R"}, Handler: []string{"r", "s0", "s1", "r*", "ret:ok"}})
@@ -107,7 +115,7 @@ func c08Oracle(sc *Scenario, rec *Rec, s *mc.Sched) []mc.Violation {
 		add("success-despite-cardinality", fmt.Sprintf("handler produced %d responses with status %s, client call succeeded with %v", r, ref.Code, rr.CliRecv))
 	case !success && r == 1 && ref.Status == "nil" && !cancelled:
 		add("failure-despite-one-response", "client got "+normFinal(first))
-	case !success && ref.Status != "nil" && !cancelled && statusCodeOf(first) != ref.Code && r <= 1:
+	case !success && ref.Status != "nil" && !cancelled && ref.Code != "any" && statusCodeOf(first) != ref.Code && r <= 1:
 		add("wrong-status", fmt.Sprintf("handler returned %s, client got %s", ref.Code, normFinal(first)))
 	}
 	if success && len(rr.CliRecv) != 1 {
